@@ -17,7 +17,13 @@ RULE = ("case = a history: prelude (2-3 matrices built by add_frame and/or by th
         "alphabet (del/remove/rename frame, id change through the handle, add_ecu, copy_frame both directions, merge, deepcopy, "
         "reader-style append, interleaved lookups) + 1500 random bodies of length <= 40 + 3000 focused bodies (3..9 operations about one matrix, two frame objects and "
         "two identifiers: look up, change in place, remove, change back, look up again); thorough: every body of length <= 3 + "
-        "The closing sweep also looks up the names 'A*', '?' and '[AB]', which no frame is called. 20000 random bodies of length <= 60. Non-trivial = distinct history whose body contains an edit and a lookup follows it.")
+        "The closing sweep also looks up the names 'A*', '?' and '[AB]', which no frame is called. 20000 random bodies of length <= 60. "
+        "Marked frames: the same preludes with every 29-bit frame marked as a J1939 parameter group (Frame.is_j1939; through the API and, for the "
+        "reader's matrices, through BA_ \"VFrameFormat\" in the DBC text) and/or frames marked CAN FD: every body of length 1 (quick: length 2 on the "
+        "prelude with a reader's matrix; thorough: on every prelude) over the alphabet plus lookups of identifiers that share the PGN of a frame of "
+        "the matrix but not its source address / priority / destination, plus 1500 (20000) random or focused bodies in which the markings, header id, length and "
+        "transmitters of frame objects are edited in the middle of the history (such edits address neither identifier nor name, the model does not "
+        "see them: lookups must answer as if they were not there). Non-trivial = distinct history whose body contains an edit and a lookup follows it.")
 EXHAUSTIVE = {"quick": False, "thorough": False}
 PARTIAL = ["frame_by_header_id (a plain scan) is exercised on snapshots of a matrix (case 'hdr'), not inside the edit histories",
            "frame objects are compared through harness-assigned handles (object identity)"]
@@ -27,9 +33,82 @@ TRUSTED = ["copy.deepcopy is modelled as a structural copy that preserves sharin
 CORRESPONDENCE = "histories of CanMatrix operations == CanVerif.step (Model/Lookup.lean)"
 
 IDS = [(0x10, False), (0x20, False), (0x10, True), (0x18FEF100, True), (0x0CFEF102, True), (0x18EA2100, True), (0x20, True), (0xFEF100, True),
-       (0x1AFEF100, True), (0x19FEF103, True)]    # the same PF/PS on another data page (DP, EDP bits belong to the PGN)
+       (0x1AFEF100, True), (0x19FEF103, True),    # the same PF/PS on another data page (DP, EDP bits belong to the PGN)
+       (0x18FEF101, True), (0x18EAFF05, True)]    # the PGN of a frame of the matrix from another source address / to another destination (PDU1)
 NAMES = ["A", "B", "C"]
 PGNS = [0xFEF1, 0xEA21, 0xEA00, 0x1234, 0x2FEF1, 0x1FEF1, 0x3FEF1]
+
+# Properties of a frame object that say nothing about its identifier or name (J1939 / CAN FD marking, header id, length,
+# transmitters).  They travel as a trailing record of an operation, which the Lean driver does not read: the model and the
+# specification know no such thing, i.e. they demand that lookups answer as if the markings were not there.
+#   ["newFrame", name, id, ext, {"j1939": true, "fd": true}]         frame built through the API with these markings
+#   ["loadMatrix", [[name, id, ext, {"j1939": true}], ...]]           DBC text with BA_ "VFrameFormat" (the reader sets the markings)
+#   [<any op> ..., {"pre": [["mark", handle, "j1939"|"fd", bool], ["hdr", handle, n], ["size", handle, n], ["tx", handle, ecu]]}]
+#                                                                     edits of frame objects made just before the operation
+MARK_MODES = ("plain", "j1939", "j1939+fd", "mixed")
+
+
+def mark_of(mode, ext, rng=None):
+    if mode == "plain":
+        return None
+    if mode == "j1939":                  # a J1939 matrix: every 29-bit frame is a parameter group
+        return {"j1939": True} if ext else None
+    if mode == "j1939+fd":
+        return {"j1939": True} if ext else {"fd": True}
+    m = {}
+    if ext and rng.random() < 0.5:
+        m["j1939"] = True
+    if rng.random() < 0.3:
+        m["fd"] = True
+    return m or None
+
+
+def mark_prelude(pre, mode, rng=None):
+    """the same prelude with markings on its frames"""
+    if mode == "plain":
+        return pre
+    out = []
+    for o in pre:
+        if o[0] == "newFrame":
+            m = mark_of(mode, o[3], rng)
+            out.append(list(o[:4]) + ([m] if m else []))
+        elif o[0] == "loadMatrix":
+            fs = []
+            for f in o[1]:
+                m = mark_of(mode, f[2], rng)
+                fs.append(list(f[:3]) + ([m] if m else []))
+            out.append(["loadMatrix", fs])
+        else:
+            out.append(o)
+    return out
+
+
+def side_edit(rng, nobjs):
+    h = rng.randrange(nobjs)
+    k = rng.random()
+    if k < 0.6:
+        return ["mark", h, "j1939", rng.random() < 0.7]
+    if k < 0.75:
+        return ["mark", h, "fd", rng.random() < 0.7]
+    if k < 0.85:
+        return ["hdr", h, rng.choice([0, 1, 0x10, 0x18FEF100])]
+    if k < 0.93:
+        return ["size", h, rng.choice([0, 8, 12, 64])]
+    return ["tx", h, rng.choice(["E1", "E2"])]
+
+
+def with_side_edits(rng, body, nobjs, p):
+    """the same body; with probability p an operation is preceded by edits of frame objects that leave identifiers and names alone"""
+    out = []
+    for o in body:
+        if rng.random() < p:
+            o = list(o) + [{"pre": [side_edit(rng, nobjs) for _ in range(rng.choice([1, 1, 2]))]}]
+        out.append(o)
+    return out
+
+
+def side_of(op):
+    return op[-1] if isinstance(op[-1], dict) else {}
 
 
 def prelude(variant):
@@ -183,7 +262,7 @@ def focused_body(rng, nmats, nobjs):
     return body
 
 
-def intflag_case(rng):
+def intflag_case(rng, marks=False):
     """a history on one matrix whose frames carry pairwise different identifiers all the time, with the extended flag stored as the
     integer 1 (lookups ask with True): add, look up, re-address, delete, look up"""
     ids = rng.sample([(0x10, False), (0x20, True), (0x18FEF100, True), (0x0CFEF102, True), (0x18EA2100, True), (0x1AFEF100, True), (0x30, True),
@@ -211,6 +290,8 @@ def intflag_case(rng):
         else:
             ops.append(["addFrame", 0, 2])
     body = [n0, len(ops) - n0]
+    if marks:
+        ops = mark_prelude(ops[:n0], rng.choice(MARK_MODES[1:]), rng) + with_side_edits(rng, ops[n0:], 3, 0.2)
     for i, e in ids:
         ops.append(["byId", 0, i, e])
     for p in PGNS:
@@ -231,6 +312,20 @@ def gen(rng, tier, shard, nshards):
                 k += 1
                 if k % nshards == shard:
                     yield mkcase(pre, [list(o) for o in body], nmats)
+    # the same sweep over matrices whose frames are marked (J1939 parameter groups, CAN FD): every body of length 1 on every
+    # prelude, every body of length 2 on the prelude with a matrix from the reader (thorough: on every prelude)
+    for variant in (0, 1, 2):
+        pre, nmats, nobjs = prelude(variant)
+        alpha = alphabet(nmats, nobjs) + marked_alphabet(nmats)
+        for mode in ("j1939", "j1939+fd"):
+            mpre = mark_prelude(pre, mode)
+            for d in (1, 2):
+                if d == 2 and (mode != "j1939" or (tier == "quick" and variant != 1)):
+                    continue
+                for body in itertools.product(alpha, repeat=d):
+                    k += 1
+                    if k % nshards == shard:
+                        yield mkcase(mpre, [list(o) for o in body], nmats)
     total = {"quick": 1500, "thorough": 20000}[tier] // nshards
     for _ in range(total):
         pre, nmats, nobjs = prelude(rng.randrange(3))
@@ -242,6 +337,29 @@ def gen(rng, tier, shard, nshards):
         yield gen_hdr(rng)
     for _ in range(total // 2 + 1):
         yield intflag_case(rng)
+    # random and focused histories over marked frames, with edits of the markings (and of other properties of a frame object
+    # that are neither identifier nor name) in the middle of the history
+    for _ in range(total):
+        pre, nmats, nobjs = prelude(rng.randrange(3))
+        mode = rng.choice(MARK_MODES)
+        pre = mark_prelude(pre, mode, rng)
+        body = random_body(rng, nmats, nobjs, 40 if tier == "quick" else 60) if rng.random() < 0.4 else focused_body(rng, nmats, nobjs)
+        yield mkcase(pre, with_side_edits(rng, body, nobjs, 0.25 if mode != "j1939" else 0.1), nmats)
+    for _ in range(total // 4 + 1):
+        yield intflag_case(rng, marks=True)
+
+
+def marked_alphabet(nmats):
+    """operations of the short exhaustive bodies that only matter when frames are marked: the marking comes and goes in the
+    middle of a history, lookups of identifiers that share their PGN with a frame of the matrix"""
+    ops = []
+    for m in range(min(nmats, 2)):
+        ops.append(["byId", m, 0x0CFEF102, True])
+        ops.append(["byId", m, 0x18FEF100, True, {"pre": [["mark", 1, "j1939", False]]}])
+        ops.append(["byId", m, 0x18FEF101, True, {"pre": [["mark", 1, "j1939", True]]}])
+    ops.append(["setId", 1, 0x18FEF101, True])
+    ops.append(["setId", 0, 0x0CFEF102, True, {"pre": [["mark", 0, "j1939", True]]}])
+    return ops
 
 
 def gen_hdr(rng):
@@ -271,11 +389,29 @@ def neighbours(case, rng, shard, nshards):
         yield mkcase(pre, random_body(rng, nmats, nobjs, 30), nmats)
 
 
+VFRAMEFORMAT = ["StandardCAN", "ExtendedCAN", "reserved", "J1939PG"] + ["reserved"] * 10 + ["StandardCAN_FD", "ExtendedCAN_FD"]
+
+
 def dbc_for(frames):
     lines = ['VERSION ""', "", "NS_ :", "", "BS_:", "", "BU_: ", ""]
-    for name, i, ext in frames:
-        lines.append("BO_ %d %s: 8 Vector__XXX" % (i | (0x80000000 if ext else 0), name))
+    marked = []
+    for fr in frames:
+        name, i, ext = fr[:3]
+        num = i | (0x80000000 if ext else 0)
+        lines.append("BO_ %d %s: 8 Vector__XXX" % (num, name))
         lines.append(' SG_ s_%s : 0|8@1+ (1,0) [0|0] "" Vector__XXX' % name)
+        lines.append("")
+        m = fr[3] if len(fr) > 3 and isinstance(fr[3], dict) else {}
+        if m.get("j1939"):
+            marked.append((num, 3))
+        elif m.get("fd"):
+            marked.append((num, 15 if ext else 14))
+    if marked:
+        # the frame format attribute as CANdb++ writes it; the reader turns it into Frame.is_j1939 / Frame.is_fd
+        lines.append('BA_DEF_ BO_  "VFrameFormat" ENUM  %s;' % ",".join('"%s"' % v for v in VFRAMEFORMAT))
+        lines.append('BA_DEF_DEF_  "VFrameFormat" "StandardCAN";')
+        for num, v in marked:
+            lines.append('BA_ "VFrameFormat" BO_ %d %d;' % (num, v))
         lines.append("")
     return "\n".join(lines).encode()
 
@@ -300,8 +436,24 @@ class Run(object):
     def found(self, fr):
         return {"f": None if fr is None else self.reg(fr)}
 
+    def side(self, edits):
+        """edits of frame objects that touch neither identifier nor name"""
+        for e in edits:
+            fr = self.objs[e[1]]
+            if e[0] == "mark":
+                setattr(fr, {"j1939": "is_j1939", "fd": "is_fd"}[e[2]], bool(e[3]))
+            elif e[0] == "hdr":
+                fr.header_id = e[2]
+            elif e[0] == "size":
+                fr.size = e[2]
+            elif e[0] == "tx":
+                fr.add_transmitter(e[2])
+            else:
+                raise KeyError(e[0])
+
     def do(self, op):
         k = op[0]
+        self.side(side_of(op).get("pre", ()))
         if k == "newMatrix":
             self.mats.append(cm.CanMatrix())
             return {"h": len(self.mats) - 1}, None
@@ -311,7 +463,8 @@ class Run(object):
             else:
                 # (in the 'intflag' histories the extended flag is the integer 1, as the SYM reader sets it)
                 aid = cm.ArbitrationId(op[2], (1 if op[3] else False) if self.intflag else op[3])
-            fr = cm.Frame(op[1], arbitration_id=aid, size=8)
+            marks = side_of(op)
+            fr = cm.Frame(op[1], arbitration_id=aid, size=8, is_j1939=bool(marks.get("j1939")), is_fd=bool(marks.get("fd")))
             fr.add_signal(cm.Signal("s", start_bit=0, size=8))
             return {"h": self.reg(fr)}, None
         if k == "loadMatrix":
@@ -419,6 +572,19 @@ def features(case, impl):
     for o in body:
         yield "op=" + o[0]
     yield "raised" if "raised" in impl["outs"] else "no-raise"
+    marks = set()
+    for o in case["c"]["ops"]:
+        if o[0] == "newFrame":
+            marks.update("api:" + m for m, v in side_of(o).items() if v and m != "pre")
+        elif o[0] == "loadMatrix":
+            for f in o[1]:
+                marks.update("reader:" + m for m, v in (f[3] if len(f) > 3 else {}).items() if v)
+        for e in side_of(o).get("pre", ()):
+            yield "edit-in-history=" + (e[0] if e[0] != "mark" else "%s:=%s" % (e[2], e[3]))
+    for m in sorted(marks):
+        yield "frames-marked=" + m
+    if not marks:
+        yield "frames-marked=none"
 
 
 def nontrivial(case, impl):
@@ -439,8 +605,8 @@ def shrink_candidates(case):
         return
     for i in range(n):
         nb = body[:i] + body[i + 1:]
-        yield {"op": "hist", "c": {"ops": ops[:a] + nb + ops[a + n:], "body": [a, n - 1]}}
+        yield {"op": "hist", "c": dict(case["c"], ops=ops[:a] + nb + ops[a + n:], body=[a, n - 1])}
     tail = ops[a + n:]
     if len(tail) > 1:
         for i in range(len(tail)):
-            yield {"op": "hist", "c": {"ops": ops[:a + n] + [tail[i]], "body": [a, n]}}
+            yield {"op": "hist", "c": dict(case["c"], ops=ops[:a + n] + [tail[i]], body=[a, n])}
